@@ -44,7 +44,7 @@ FTR = [A.fighter_ability_attack_missile_dmg_em, A.fighter_ability_attack_missile
 OTHER = [A.hp, A.armor_hp, A.shield_capacity, A.cpu, A.power, A.upgrade_cost, A.volume, A.capacity, A.charge_rate,
          A.reload_time, A.module_reactivation_delay, A.drone_bandwidth_used, A.dmg_mult, A.dmg_mult_bonus_max,
          A.max_active_drones, A.ammo_loaded, A.crystals_get_damaged, A.crystal_volatility_chance,
-         A.crystal_volatility_dmg, A.armor_dmg_amount, A.shield_bonus, A.repair_mult_bonus_max]
+         A.crystal_volatility_dmg, A.armor_dmg_amount, A.shield_bonus, A.repair_mult_bonus_max, A.agility, A.mass]
 CLS = {Ship: 'ship', ModuleHigh: 'modHigh', ModuleMid: 'modMid', ModuleLow: 'modLow', Rig: 'rig',
        Subsystem: 'subsystem', Drone: 'drone', FighterSquad: 'fighter', Charge: 'charge', Implant: 'implant'}
 CONT = {'high': ModuleHigh, 'mid': ModuleMid, 'low': ModuleLow, 'rig': Rig, 'subsystem': Subsystem, 'drone': Drone,
@@ -184,6 +184,7 @@ class Universe:
             at.update({A.hp: hp(), A.armor_hp: hp(), A.shield_capacity: hp()})
             at.update({a: opt(ch([100, 375.5, 1000, 50, 0])) for a in SHIP_OUT})
             at.update({a: opt(ch([0, 1, 2, 3, 3.0, 2.7, 5, 8, -1, 0.999])) for a in SHIP_SLOTS})
+            at.update({A.agility: opt(ch([0.5, 3.25, 0.0315, 1])), A.mass: opt(ch([1200000, 10500000, 1e9, 0, 850000.5]))})
             self._add('ship', at, effects=['plain'])
         self._add('ship', {A.hp: ch([-5, 10]), A.armor_hp: 10, A.em_dmg_resonance: ch([1.5, -0.25, 1])}, effects=[])  # ValueError in ItemHP / ResistProfile
         self._add('character', {A.max_active_drones: ch([5, 5.0, 2, 0, 3.9])}, tid=int(TypeId.character_static))
